@@ -184,11 +184,21 @@ func H_C06() {
 	if kind == badDeniedPayload {
 		ac = &denyPayload{p: []byte{'b', byte('0' + bad)}, inner: ac}
 	}
-	mk := func() *ipfslog.IPFSLog {
-		return newLogOpt(api, ids[0], &ipfslog.LogOptions{ID: "X", IO: io, Entries: orderedMapOf(chain[:shared]), AccessController: ac,
+	mkFrom := func(m iface.IPFSLogOrderedEntries) *ipfslog.IPFSLog {
+		return newLogOpt(api, ids[0], &ipfslog.LogOptions{ID: "X", IO: io, Entries: m, AccessController: ac,
 			Concurrency: uint(vx.Param("CONC", 0))}) // 0 = the default (16); 1 = validation one entry at a time
 	}
+	mk := func() *ipfslog.IPFSLog { return mkFrom(orderedMapOf(chain[:shared])) }
 	A, twin := mk(), mk()
+	if vx.Param("SHAREMAP", 0) == 1 {
+		// the caller built a second, permissive log from the very map it gave to A, and that log merges the source
+		// first: what it accepted is its own business
+		m := orderedMapOf(chain[:shared])
+		A = mkFrom(m)
+		sib := newLogOpt(api, ids[1], &ipfslog.LogOptions{ID: "X", IO: io, Entries: m})
+		sib.Join(B, -1)
+		vx.Cover("sibling-built-from-the-same-map")
+	}
 	// ---- reference: candidates = new entries reachable from the source's heads through entries of this log id ----
 	cand := map[string]iface.IPFSLogEntry{}
 	if nB > 0 {
